@@ -199,7 +199,9 @@ def node(w, aug, leaf):
     data = w.bits('D', r)
     from harness.common import abstract_cell
     kids = [abstract_cell(w, 'L'), abstract_cell(w, 'R')]
-    s = mk_slice(w, data, kids)
+    with_yref = aug and w.choice('y_owns_a_reference', [False, True])
+    yref = abstract_cell(w, 'YREF') if with_yref else None
+    s = mk_slice(w, data, ([yref] if (with_yref and leaf) else []) + kids + ([yref] if (with_yref and not leaf) else []))
     ret, extras, calls, order = {}, [], [], []
     m = 0 if leaf else w.int('m', 1, 1023)
 
@@ -207,9 +209,14 @@ def node(w, aug, leaf):
         order.append('x')
         return ('X', cs)
 
+    yseen = []
+
     def yd(cs):
+        # an augmentation type may own references (a CurrencyCollection with extra currencies): it takes the NEXT reference
         order.append('y')
-        return ('Y', len(order))
+        yseen.append(cs.ref_offset)
+        got_ref = cs.load_ref() if with_yref else None
+        return ('Y', len(order), got_ref)
     name = 'parse_aug' if aug else 'parse'
     with w.stub(P_, name, _rec_stub(calls, name)) if w.symbolic else _native_patch(P_, name, _rec_stub(calls, name)):
         if aug:
@@ -226,6 +233,8 @@ def node(w, aug, leaf):
         w.claim('entry key is the accumulated prefix', key == format(pre.value(), f'0{pre_n}b'))
         if aug:
             w.claim('extra read before value', order == ['y', 'x'] and len(extras) == 1)
+            if with_yref:
+                w.claim('a leaf extra takes the first reference of the leaf', extras[0][2] is yref and yseen == [0])
         else:
             v = next(iter(ret.values())) if ret else None
             w.claim('value is the remaining slice', v is s)
@@ -242,7 +251,11 @@ def node(w, aug, leaf):
                     w.claim(f'child {i}: same extras list', cl[4] is extras)
         w.claim('nothing added at a fork itself', len(ret) == 0)
         if aug:
-            w.claim('fork extra read after both references', order == ['y'] and len(extras) == 1 and s.ref_offset == 2)
+            w.claim('fork extra read after both references', order == ['y'] and len(extras) == 1 and s.ref_offset == 2 + (1 if with_yref else 0))
+            w.claim('the extra deserializer runs on the slice positioned AFTER the two child references (its own references follow them)',
+                    yseen == [2])
+            if with_yref:
+                w.claim('the extra gets the reference that follows the children', extras[0][2] is yref)
 
 
 class _native_patch:
